@@ -387,6 +387,16 @@ Proof.
     apply symterm_inj in E; [|repeat constructor; assumption|repeat constructor; assumption]. repeat split; congruence.
 Qed.
 
+Lemma symg_gcm_enc_ok k n p : okb k = true -> okb n = true -> okb p = true -> gcm_enc symg k n p = Ok (symterm 4 [k; n; p]).
+Proof. intros Hk Hn Hp. cbn [gcm_enc symg]. unfold symg_gcm_enc. rewrite Hk, Hn, Hp. reflexivity. Qed.
+Lemma symg_kw_wrap_ok k x : okb k = true -> okb x = true -> kw_wrap symg k x = Ok (symterm 3 [k; x]).
+Proof. intros Hk Hx. cbn [kw_wrap symg]. unfold symg_kw_wrap. rewrite Hk, Hx. reflexivity. Qed.
+Lemma len_symterm tag fs : len (symterm tag fs) = 2 + fold_right (fun f acc => 4 + len f + acc) 0 fs.
+Proof.
+  unfold symterm. rewrite !len_cons. induction fs as [|f fs IH]; cbn [map concat fold_right]; [rewrite len_nil; lia|].
+  unfold symfield at 1. rewrite !len_app, len_be. lia.
+Qed.
+
 (* symg is sym wherever the guards hold *)
 Lemma symg_is_sym k n x : okb k = true -> okb n = true -> okb x = true ->
   kw_wrap symg k x = kw_wrap sym k x /\ gcm_enc symg k n x = gcm_enc sym k n x /\
